@@ -294,6 +294,32 @@ fn systemtime(acc: &mut Acc) {
     }
 }
 
+/// Histories of length two, each on a thread of its own (so that "the first conversion this thread ever made" varies):
+/// every ordered pair of system-clock readings on both sides of the epoch and of midnight.
+fn systemtime_histories(acc: &mut Acc) {
+    let al: Vec<i128> = vec![-10 * NS, 10 * NS, -86_400 * NS - 5 * NS, 86_400 * NS + 5 * NS, 0, -1, 1, -86_400 * NS, 86_400 * NS, -43_200 * NS - 500_000_000, 1_700_000_000 * NS + 123, -1_700_000_000 * NS - 123];
+    let conv = |t: i128| -> Option<(i64, u32)> {
+        let st = if t >= 0 { UNIX_EPOCH.checked_add(Duration::new((t / NS) as u64, (t % NS) as u32))? } else { UNIX_EPOCH.checked_sub(Duration::new(((-t) / NS) as u64, ((-t) % NS) as u32))? };
+        let dt: DateTime<Utc> = DateTime::from(st);
+        let back: SystemTime = dt.into();
+        if back != st {
+            return None;
+        }
+        Some((dt.timestamp(), dt.timestamp_subsec_nanos()))
+    };
+    for &a in &al {
+        for &b in &al {
+            acc.transitions += 2;
+            let got = std::thread::spawn(move || (conv(a), conv(b), conv(a))).join();
+            let w = |t: i128| Some((t.div_euclid(NS) as i64, t.rem_euclid(NS) as u32));
+            match got {
+                Ok(g) if g == (w(a), w(b), w(a)) => acc.hit(SYSTIME),
+                other => acc.violation("DateTime::from(SystemTime):history", format!("on a fresh thread: UNIX_EPOCH {:+} ns, then {:+} ns, then the first again, each converted to DateTime<Utc> and back", a, b), format!("{:?}", (w(a), w(b), w(a))), format!("{:?}", other.ok())),
+            }
+        }
+    }
+}
+
 /// DateTime -> SystemTime for values built from (seconds, nanosecond field incl. leap): the instant is
 /// UNIX_EPOCH + seconds + field (a leap field lies beyond its second), and the way back gives the same instant
 fn to_systemtime(acc: &mut Acc) {
@@ -394,6 +420,7 @@ fn main() {
         } else {
             systemtime(acc);
             to_systemtime(acc);
+            systemtime_histories(acc);
             acc.traces += 1;
         }
     });
